@@ -4,9 +4,13 @@
    `TaggedField::from_base32` (which decide between "known", "unknown/skipped" and a hard parse
    error) and the signed preimage of `RawBolt11Invoice::hash_from_parts`.  No Mathlib.
    ECDSA itself (signature verification / key recovery) is NOT modelled: it is a trusted dependency;
-   only the range checks of `RecoverableSignature::from_compact` / `PublicKey::from_slice` are. -/
+   only the range checks of `RecoverableSignature::from_compact` / `PublicKey::from_slice` are.
+   The numeric bounds and field-width decisions (timestamp range, length rules per tag, overflow checks,
+   `assert!`/`expect`/`unreachable!` sites) are NOT literals of this file: they are the definitions of
+   `Generated/C18Bounds.lean`, translated from the Rust text on every run (tools/gen_c18_bounds.py). -/
 import LdkModel.Prim.Bech32
 import LdkModel.Prim.Sha256
+import LdkModel.Generated.C18Bounds
 namespace Ldk.Bolt11
 open Ldk.Prim.Bech32
 
@@ -17,7 +21,9 @@ inductive Err
   | bech32Error | parseAmountError | malformedSignature | descriptionDecodeError
   | unknownCurrency | unknownSiPrefix | malformedHRP | tooShortDataPart
   | unexpectedEndOfTaggedFields | integerOverflowError | invalidSegWitProgramLength
-  | invalidPubKeyHashLength | invalidScriptHashLength
+  | invalidPubKeyHashLength | invalidScriptHashLength | invalidSliceLength
+  /-- not a `Bolt11ParseError`: the parser PANICKED (`expect` / `unreachable!()` / `assert!` reached) -/
+  | panicked
   deriving DecidableEq, Repr
 
 def Err.name : Err → String
@@ -30,6 +36,8 @@ def Err.name : Err → String
   | .invalidSegWitProgramLength => "InvalidSegWitProgramLength"
   | .invalidPubKeyHashLength => "InvalidPubKeyHashLength"
   | .invalidScriptHashLength => "InvalidScriptHashLength"
+  | .invalidSliceLength => "InvalidSliceLength"
+  | .panicked => "PANIC"
 
 /-! ### constants (each is tied to the Rust source by `Ldk.C18.model_constants_match_source`) -/
 
@@ -200,6 +208,55 @@ def encodeTimestamp (t : Nat) : List U5 :=
   let d := encodeIntBe t
   List.replicate (7 - d.length) 0 ++ d
 
+/-- mirrors de.rs::parse_u64_be (`define_parse_int_be!`): fold with `checked_mul(32)` / `checked_add`
+    in u64, `none` as soon as an intermediate value leaves the u64 range.  Closed form:
+    `Ldk.C18.parseU64Be_eq` (`some (parseIntBe d)` iff `parseIntBe d < 2^64`). -/
+def parseU64Be (d : List U5) : Option Nat :=
+  d.foldl (fun acc b => acc.bind fun x => (chkMul64 x C18Bounds.PARSE_INT_BASE).bind fun y => chkAdd64 y b.toNat) (some 0)
+
+/-- mirrors lib.rs::PositiveTimestamp::from_unix_timestamp (= from_duration_since_epoch on whole
+    seconds = what InvoiceBuilder::duration_since_epoch accepts); the comparison is the translated
+    `C18Bounds.fromUnixTimestampOk`.  `none` = `CreationError::TimestampOutOfBounds` -/
+def positiveTimestamp (unixSeconds : Nat) : Option Nat :=
+  if C18Bounds.fromUnixTimestampOk unixSeconds then some unixSeconds else none
+
+/-- outcome of de.rs::FromBase32 for PositiveTimestamp -/
+inductive TsDecode
+  | ok (t : Nat)
+  | invalidSliceLength
+  /-- `parse_u64_be(b32).expect("7*5bit < 64bit, no overflow possible")` failed -/
+  | overflowPanic
+  /-- `from_unix_timestamp` refused the decoded value: `Err(_) => unreachable!()` -/
+  | unreachablePanic
+  deriving DecidableEq, Repr
+
+/-- mirrors de.rs::FromBase32 for PositiveTimestamp, including its two panic sites -/
+def timestampFromBase32 (b32 : List U5) : TsDecode :=
+  if C18Bounds.timestampWrongLen b32.length then .invalidSliceLength else
+  match parseU64Be b32 with
+  | none => .overflowPanic
+  | some t =>
+    match positiveTimestamp t with
+    | some t => .ok t
+    | none => .unreachablePanic
+
+/-- the serialiser side of the same field: ser.rs::Base32Iterable for PositiveTimestamp computes
+    `to_pad = 7 - fes.len()` in usize — an underflow (PANIC) unless the digits fit -/
+def timestampSerializable (t : Nat) : Bool := (encodeIntBe t).length ≤ C18Bounds.TIMESTAMP_PAD_TO
+
+/-- bit length of a u64: `64 - int.leading_zeros()` -/
+def bitLen (n : Nat) : Nat := if n = 0 then 0 else Nat.log2 n + 1
+
+/-- mirrors ser.rs::encoded_int_be_base32_size (`Base32Len` of ExpiryTime / MinFinalCltvExpiryDelta:
+    the value written into the 10-bit length of an `x` / `c` field) -/
+def encodedIntBeBase32Size (n : Nat) : Nat := C18Bounds.encodedIntSizeOfBitLen (bitLen n)
+
+/-- mirrors lib.rs::Description::new on the byte length; `false` = `CreationError::DescriptionTooLong` -/
+def descriptionLenOk (bytes : Nat) : Bool := !C18Bounds.descriptionTooLong bytes
+
+/-- mirrors lib.rs::InvoiceBuilder::optional_payment_metadata; `false` = `PaymentMetadataTooLong` -/
+def paymentMetadataLenOk (bytes : Nat) : Bool := !C18Bounds.paymentMetadataTooLong bytes
+
 /-- one tagged field on the wire: tag, 10-bit length, payload -- mirrors ser.rs::write_tagged_field -/
 def encodeField (f : U5 × List U5) : List U5 :=
   f.1 :: UInt8.ofNat (f.2.length / 32) :: UInt8.ofNat (f.2.length % 32) :: f.2
@@ -291,47 +348,68 @@ inductive Interp | known (payload : List U5) | unknown
 /-- bytes ↔ symbols through a byte vector: what `Vec<u8>::from_base32` then `fe_iter` produce -/
 def viaBytes (p : List U5) : List U5 := bytesToFes (fesToBytes p)
 
+/-- mirrors de.rs::FromBase32 for PaymentHash / Sha256 / PaymentSecret: a payload that is not 52
+    symbols long is "not this field" (`InvalidSliceLength` / `Skip` ⇒ kept as unknown) -/
+def interpHash32 (wrongLen : Bool) (p : List U5) : Except Err Interp :=
+  if wrongLen then .ok .unknown else .ok (.known (viaBytes p))
+
+/-- mirrors de.rs::FromBase32 for Description:
+    `Description::new(String::from_utf8(bytes)?).expect("Max len is 639=floor(1023*5/8) ...")` -/
+def interpDescription (p : List U5) : Except Err Interp :=
+  let b := fesToBytes p
+  if validUtf8 b.length b then
+    if descriptionLenOk b.length then .ok (.known (bytesToFes b)) else .error .panicked
+  else .error .descriptionDecodeError
+
+/-- mirrors de.rs::FromBase32 for PayeePubKey -/
+def interpPayeePubKey (p : List U5) : Except Err Interp :=
+  if C18Bounds.payeePubKeyWrongLen p.length then .ok .unknown else
+  let b := fesToBytes p
+  if validPubkey b then .ok (.known (bytesToFes b)) else .error .malformedSignature
+
+/-- mirrors de.rs::FromBase32 for ExpiryTime / MinFinalCltvExpiryDelta: every u64 is accepted, a
+    value beyond u64 is `IntegerOverflowError`; re-serialised without leading zero symbols -/
+def interpU64 (p : List U5) : Except Err Interp :=
+  match parseU64Be p with
+  | none => .error .integerOverflowError
+  | some v => .ok (.known (encodeIntBe v))
+
+/-- mirrors de.rs::FromBase32 for Fallback -/
+def interpFallback (p : List U5) : Except Err Interp :=
+  match p with
+  | [] => .error .unexpectedEndOfTaggedFields
+  | ver :: rest =>
+    let b := fesToBytes rest
+    if C18Bounds.FALLBACK_SEGWIT_VERSION_LO ≤ ver.toNat && ver.toNat ≤ C18Bounds.FALLBACK_SEGWIT_VERSION_HI then
+      if C18Bounds.fallbackProgramLenBad b.length then .error .invalidSegWitProgramLength
+      else .ok (.known (ver :: bytesToFes b))
+    else if ver.toNat == C18Bounds.FALLBACK_P2PKH_VERSION then
+      if b.length != 20 then .error .invalidPubKeyHashLength else .ok (.known (ver :: bytesToFes b))
+    else if ver.toNat == C18Bounds.FALLBACK_P2SH_VERSION then
+      if b.length != 20 then .error .invalidScriptHashLength else .ok (.known (ver :: bytesToFes b))
+    else .ok .unknown
+
+/-- mirrors de.rs::FromBase32 for PrivateRoute -/
+def interpPrivateRoute (p : List U5) : Except Err Interp :=
+  let b := fesToBytes p
+  if C18Bounds.privateRouteBadLen b.length then .error .unexpectedEndOfTaggedFields
+  else if allChunks C18Bounds.ROUTE_HOP_BYTES (fun hop => validPubkey (hop.take 33)) b.length b then .ok (.known (bytesToFes b))
+  else .error .malformedSignature
+
 /-- mirrors de.rs::FromBase32 for TaggedField and the error routing in parse_tagged_parts
-    (`Skip`, `InvalidSliceLength`, `Bech32Error` ⇒ unknown; every other error aborts the parse) -/
+    (`Skip`, `InvalidSliceLength`, `Bech32Error` ⇒ unknown; every other error aborts the parse).
+    All length rules are the translated predicates of `Generated/C18Bounds.lean`. -/
 def interpField (tag : U5) (p : List U5) : Except Err Interp :=
-  if tag == tagPaymentHash then        -- p: payment hash
-    if p.length != 52 then .ok .unknown else .ok (.known (viaBytes p))
-  else if tag == tagDescription then  -- d: description
-    let b := fesToBytes p
-    if validUtf8 b.length b then .ok (.known (bytesToFes b)) else .error .descriptionDecodeError
-  else if tag == tagPayeePubKey then  -- n: payee public key
-    if p.length != 53 then .ok .unknown else
-    let b := fesToBytes p
-    if validPubkey b then .ok (.known (bytesToFes b)) else .error .malformedSignature
-  else if tag == tagDescriptionHash then  -- h: description hash
-    if p.length != 52 then .ok .unknown else .ok (.known (viaBytes p))
-  else if tag == tagExpiryTime || tag == tagMinFinalCltvExpiryDelta then  -- x: expiry, c: min final cltv expiry delta
-    let v := parseIntBe p
-    if v > u64Max then .error .integerOverflowError else .ok (.known (encodeIntBe v))
-  else if tag == tagFallback then   -- f: fallback address
-    match p with
-    | [] => .error .unexpectedEndOfTaggedFields
-    | ver :: rest =>
-      let b := fesToBytes rest
-      if ver ≤ 16 then
-        if b.length < 2 || b.length > 40 then .error .invalidSegWitProgramLength
-        else .ok (.known (ver :: bytesToFes b))
-      else if ver == 17 then
-        if b.length != 20 then .error .invalidPubKeyHashLength else .ok (.known (ver :: bytesToFes b))
-      else if ver == 18 then
-        if b.length != 20 then .error .invalidScriptHashLength else .ok (.known (ver :: bytesToFes b))
-      else .ok .unknown
-  else if tag == tagPrivateRoute then   -- r: private route
-    let b := fesToBytes p
-    if b.length % 51 != 0 then .error .unexpectedEndOfTaggedFields
-    else if allChunks 51 (fun hop => validPubkey (hop.take 33)) b.length b then .ok (.known (bytesToFes b))
-    else .error .malformedSignature
-  else if tag == tagPaymentSecret then  -- s: payment secret
-    if p.length != 52 then .ok .unknown else .ok (.known (viaBytes p))
-  else if tag == tagPaymentMetadata then  -- m: payment metadata
-    .ok (.known (viaBytes p))
-  else if tag == tagFeatures then   -- 9: features (big-endian bit field; leading zero symbols are trimmed)
-    .ok (.known (p.dropWhile (· == 0)))
+  if tag == tagPaymentHash then interpHash32 (C18Bounds.paymentHashWrongLen p.length) p            -- p
+  else if tag == tagDescription then interpDescription p                                           -- d
+  else if tag == tagPayeePubKey then interpPayeePubKey p                                           -- n
+  else if tag == tagDescriptionHash then interpHash32 (C18Bounds.sha256WrongLen p.length) p        -- h
+  else if tag == tagExpiryTime || tag == tagMinFinalCltvExpiryDelta then interpU64 p               -- x, c
+  else if tag == tagFallback then interpFallback p                                                 -- f
+  else if tag == tagPrivateRoute then interpPrivateRoute p                                         -- r
+  else if tag == tagPaymentSecret then interpHash32 (C18Bounds.paymentSecretWrongLen p.length) p   -- s
+  else if tag == tagPaymentMetadata then .ok (.known (viaBytes p))                                 -- m
+  else if tag == tagFeatures then .ok (.known (p.dropWhile (· == 0)))   -- 9: leading zero symbols are trimmed
   else .ok .unknown
 
 /-- a parsed field: tag, whether the library knows its semantics, payload (canonical when known) -/
@@ -427,12 +505,17 @@ def parseSigned (s : Bytes) : Except Err SignedRaw :=
     | .ok hrp =>
       let d := data.take (data.length - sigLen5)
       if d.length < 7 then .error .tooShortDataPart else
-      match parseTagged d.length (d.drop 7) with
-      | .error e => .error e
-      | .ok fields =>
-        let sig := data.drop (data.length - sigLen5)
-        if sigOk sig then .ok { hrp, timestamp := parseIntBe (d.take 7), fields, sig }
-        else .error .malformedSignature
+      -- RawDataPart::from_base32: the timestamp is decoded BEFORE the tagged fields are looked at
+      match timestampFromBase32 (d.take 7) with
+      | .invalidSliceLength => .error .invalidSliceLength   -- `?`; cannot happen while the slice has 7 symbols
+      | .overflowPanic | .unreachablePanic => .error .panicked
+      | .ok timestamp =>
+        match parseTagged d.length (d.drop 7) with
+        | .error e => .error e
+        | .ok fields =>
+          let sig := data.drop (data.length - sigLen5)
+          if sigOk sig then .ok { hrp, timestamp, fields, sig }
+          else .error .malformedSignature
 
 /-- data part without signature as re-serialised -- mirrors ser.rs::Base32Iterable for RawDataPart -/
 def SignedRaw.dataSyms (i : SignedRaw) : List U5 :=
